@@ -1,4 +1,5 @@
 import Audit.Tool
 import Uds.Props.C03
 import Uds.Props.C03Call
+import Uds.Props.C03Hist
 #audit Uds.Props.C03
